@@ -6,6 +6,10 @@ import os, re, sys, glob
 ROOT = os.path.dirname(os.path.dirname(os.path.abspath(__file__)))
 gen = os.path.join(ROOT, "lean/MitumModel/Gen")
 pinsf = os.path.join(ROOT, "lean/MitumModel/Pins.lean")
+import subprocess
+subprocess.run(["go", "build", "-o", os.path.join(ROOT, "bin/extract"), "."], cwd=os.path.join(ROOT, "extract"), check=True,
+               env=dict(os.environ, GOFLAGS="-mod=mod", GOPROXY="off", GOSUMDB="off", GOTOOLCHAIN="local"))
+subprocess.run([os.path.join(ROOT, "bin/extract"), "/repo", gen], check=True)
 cur = {}
 if os.path.exists(pinsf):
     for m in re.finditer(r"def (C\d+) : List \(String × String\) := \[(.*?)\]\n", open(pinsf).read(), re.S):
